@@ -55,7 +55,29 @@ static void ev_boundary_lite(H3Index h) {
     fprintf(vt_out, ",\"ccw\":%d}\n", ccw);
 }
 
+/* concurrent mode: T threads observe different cells at the same time (cellToBoundary, cellToLatLng, cellAreaRads2 are functions
+ * of their argument also then); each thread records into its own memory stream */
+#include <pthread.h>
+typedef struct { CellVec cells; char *buf; size_t len; } GeoTh;
+static pthread_barrier_t g_bar;
+static void *geo_worker(void *arg) {
+    GeoTh *t = arg; vt_out = open_memstream(&t->buf, &t->len);
+    pthread_barrier_wait(&g_bar);
+    for (int rep = 0; rep < 3; rep++) for (int64_t i = 0; i < t->cells.n; i++) { if ((i + rep) % 3 == 0) ev_boundary(t->cells.v[i]); else ev_boundary_lite(t->cells.v[i]); }
+    fclose(vt_out); vt_out = NULL; return NULL;
+}
+static void geo_threads(int quick, const char *path) {
+    enum { T = 8 }; GeoTh th[T]; pthread_t id[T]; memset(th, 0, sizeof th);
+    for (int t = 0; t < T; t++) for (int res = 1; res <= 15; res++) { cv_pentagon_strata(&th[t].cells, res, 1); cv_random_cells(&th[t].cells, res, quick ? 6 : 40); if (res >= 3) cv_seam_cells(&th[t].cells, res, quick ? 1 : 4); }
+    pthread_barrier_init(&g_bar, NULL, T);
+    for (int t = 0; t < T; t++) pthread_create(&id[t], NULL, geo_worker, &th[t]);
+    for (int t = 0; t < T; t++) pthread_join(id[t], NULL);
+    vt_open(path);
+    for (int t = 0; t < T; t++) { fwrite(th[t].buf, 1, th[t].len, vt_out); free(th[t].buf); cv_free(&th[t].cells); }
+}
+
 int main(int argc, char **argv) {
+    if (argc == 5 && !strcmp(argv[1], "threads")) { vt_seed(strtoull(argv[3], 0, 10) + 88); geo_threads(argv[2][0] == 'q', argv[4]); vt_close(); return 0; }
     if (argc == 4 && !strcmp(argv[1], "cells")) {
         FILE *in = fopen(argv[2], "r"); if (!in) return 2; vt_open(argv[3]); uint64_t h;
         while (fscanf(in, "%" SCNx64, &h) == 1) ev_boundary(h);
